@@ -391,6 +391,19 @@ func mutate(rng *rand.Rand, b []byte) []byte {
 }
 
 // hand-made datagrams around the decoders' special cases
+// errorLists: KRPC error lists whose first two (and an optional third) elements take every bencode kind,
+// bare (for Error.UnmarshalBencode) or wrapped in a datagram (pre ... post).
+func errorLists(pre, post string) (out [][]byte) {
+	kinds := []string{"i201e", "i-7e", "1:x", "0:", "le", "li1ee", "de", "d1:ai1ee"}
+	for _, a := range kinds {
+		for _, b := range kinds {
+			out = append(out, []byte(pre+"l"+a+b+"e"+post), []byte(pre+"l"+a+b+"i3ee"+post))
+		}
+		out = append(out, []byte(pre+"l"+a+"e"+post))
+	}
+	return
+}
+
 func handMade() [][]byte {
 	id := "abcdefghij0123456789"
 	s := []string{
@@ -420,7 +433,7 @@ func handMade() [][]byte {
 		"d1:ad2:id20:" + id + "4:porti-1ee1:q13:announce_peer1:t1:x1:y1:qe", "d1:ad2:id20:" + id + "4:porti99999999999999999999ee1:q1:x1:t1:x1:y1:qe",
 		"d1:ad2:id20:" + id + "1:vi99999999999999999999ee1:q3:put1:t1:x1:y1:qe", "d1:ad2:id20:" + id + "1:vlee1:q3:put1:t1:x1:y1:qe",
 		"d1:ad2:id20:" + id + "1:vd1:b1:x1:a1:yee1:q3:put1:t1:x1:y1:qe", // unsorted keys inside v
-		"d1:ad2:id20:" + id + "3:seqi1e3:seqi2ee1:q3:put1:t1:x1:y1:qe", // duplicate key
+		"d1:ad2:id20:" + id + "3:seqi1e3:seqi2ee1:q3:put1:t1:x1:y1:qe",  // duplicate key
 		"d1:ad2:id20:" + id + "4:salt0:e1:q3:put1:t1:x1:y1:qe", "d1:ad2:id20:" + id + "1:k32:" + id + "abcdefghijkle1:q3:put1:t1:x1:y1:qe",
 		"d1:ad2:id20:" + id + "1:k33:" + id + "abcdefghijklme1:q3:put1:t1:x1:y1:qe", "d1:ad2:id20:" + id + "1:k0:e1:q3:put1:t1:x1:y1:qe",
 		"d1:y1:q1:t1:x1:ad2:id20:" + id + "ee", // unsorted top level
@@ -433,7 +446,7 @@ func handMade() [][]byte {
 	for i := range s {
 		r[i] = []byte(s[i])
 	}
-	return r
+	return append(r, errorLists("d1:e", "1:t1:x1:y1:ee")...)
 }
 
 var compactTypes = []struct {
@@ -603,6 +616,7 @@ func (f *codecFam) generate(rng *rand.Rand, n int, out *emitter) {
 		[]byte("5:ab"), []byte("5"), []byte("5:"), []byte(":"), []byte("-1:"), []byte("01:a"), []byte("99999999999:"), []byte("134217727:x"),
 		[]byte("li201e1:xe"), []byte("li201ee"), []byte("l1:xi201ee"), []byte("li201e1:xi5ee"), []byte("lli201eee"), []byte("li99999999999999999999e1:xe"),
 		[]byte("1:x"), []byte("0:"), []byte("20:abcdefghij0123456789x"), []byte("lllllllllleeeeeeeeee"), []byte("i"), []byte("ie"), []byte("l"), []byte("d1:a")}
+	junk = append(junk, errorLists("", "")...)
 	for _, fn := range directFns {
 		out.segment()
 		for l := 0; l <= 4*38+1; l++ {
